@@ -70,7 +70,7 @@ def OpOk : Op → Prop
   | .eaInit _ r _ | .eaResize _ r _ | .eaAppend _ r _ | .eaShrink _ r | .eaGetsize r | .eaDup r | .eaExport r => 0 < r
   | .eqInit r => 0 < r ∧ r + cap ≤ SIZE_MAX
   | .smAdd p => 0 < p ∧ p < 2^64
-  | .mpInit k => poolSizes.contains k = true
+  | .mpInit k | .mpUse k => poolSizes.contains k = true
   | _ => True
 
 instance : DecidablePred OpOk := fun op => by cases op <;> simp only [OpOk] <;> infer_instance
@@ -804,17 +804,34 @@ def SmRel (n : Nat) : Option SeqMap.SM → Option SmIdeal → Prop
   | some x, i => SeqMap.MInv x ∧ x.q.ea.alloc ≤ cap ∧ x.offset + x.len ≤ n ∧ i = some (SeqMap.abs x)
   | none, i => i = none
 
+/-- the library blocks a pool accounts for: its objects in use, its cache, its stack array once allocated -/
+def poolBlk (pu : MPool.MP × List Nat) : Int := pu.2.length + pu.1.stack.length + (if pu.1.dyn then 1 else 0)
+
+/-- the blocks of the pools that are not in use -/
+def parkedBlk (cur : Nat) (parked : Nat → MPool.MP × List Nat) : Int :=
+  ((otherSizes cur).map fun k => poolBlk (parked k)).sum
+
+/-- **the pools of the process**: the pool in use satisfies the single-pool simulation relation `MPool.R`, the blocks
+of the other pools being part of "what has nothing to do with this pool"; every parked entry satisfies it too (for
+it everything else is its base) -/
+structure PR (p : MPool.MP) (m : Mem) (u : List Nat) (cur : Nat) (parked : Nat → MPool.MP × List Nat) (base : Int) :
+    Prop where
+  here : MPool.R p m u (base + parkedBlk cur parked)
+  size : poolSizes.contains cur = true
+  parked : ∀ k, MPool.R (parked k).1 m (parked k).2 (m.live - poolBlk (parked k))
+
 /-- **reachable pairs (model state, monitor state)** after `n` operations: the oracle never grants more than `cap`
 bytes; each container that exists satisfies its invariant and the monitor holds exactly its abstraction; the
 harness' and the monitor's lists of objects in use are the same list; and the number of live blocks is accounted
-for: structure + buffer of each container, pool objects in use, cached objects, the pool's stack. -/
+for: structure + buffer of each container, pool objects in use, cached objects, the pools' stacks (every pool of the process:
+`PR`); the monitor's sets of objects in use are the harness', pool by pool. -/
 structure Rel (n : Nat) (s : DsStep.S) (ms : Spec.DSMon.S) : Prop where
   capped : Capped s.m
   ea : EaRel s.ea ms.ea
   eq : EqRel s.eq ms.eq ms.eqr
   sm : SmRel n s.sm ms.sm
-  mp : MPool.R s.mp s.m s.inUse (eaBlk s.ea + eqBlk s.eq + smBlk s.sm)
-  inUse : ms.inUse = s.inUse
+  mp : PR s.mp s.m s.inUse s.mpSize s.parked (eaBlk s.ea + eqBlk s.eq + smBlk s.sm)
+  inUse : ms.inUse = s.inUse ∧ ms.mpSize = s.mpSize ∧ ∀ k, ms.parkedU k = (s.parked k).2
 
 theorem SmRel.mono {n n' : Nat} (h : n ≤ n') {o : Option SeqMap.SM} {i : Option SmIdeal} (hr : SmRel n o i) :
     SmRel n' o i := by
@@ -827,8 +844,36 @@ theorem R_transport {p : MPool.MP} {m m' : Mem} {u : List Nat} {base base' : Int
   ⟨h.nodup, h.unodup, h.disj, fun x hx => Nat.lt_of_lt_of_le (h.sfresh x hx) e.2.1,
    fun x hx => Nat.lt_of_lt_of_le (h.ufresh x hx) e.2.1, h.slen, by have := h.live; omega⟩
 
+theorem R_self {p : MPool.MP} {m : Mem} {u : List Nat} {base : Int} (h : MPool.R p m u base) :
+    MPool.R p m u (m.live - poolBlk (p, u)) :=
+  ⟨h.nodup, h.unodup, h.disj, h.sfresh, h.ufresh, h.slen, by simp only [poolBlk]; omega⟩
+
+theorem PR_transport {p : MPool.MP} {m m' : Mem} {u : List Nat} {cur : Nat} {pk : Nat → MPool.MP × List Nat}
+    {base base' : Int} (h : PR p m u cur pk base) (e : Ext m m') (hl : m'.live + base = m.live + base') :
+    PR p m' u cur pk base' :=
+  ⟨R_transport h.here e (by omega), h.size, fun k => R_transport (h.parked k) e (by omega)⟩
+
+/-- a step of the pool in use: the parked pools are not touched -/
+theorem PR_step {p p' : MPool.MP} {m m' : Mem} {u u' : List Nat} {cur : Nat} {pk : Nat → MPool.MP × List Nat}
+    {base : Int} (h : PR p m u cur pk base) (e : Ext m m') (hR : MPool.R p' m' u' (base + parkedBlk cur pk)) :
+    PR p' m' u' cur pk base :=
+  ⟨hR, h.size, fun k => R_transport (h.parked k) e (by omega)⟩
+
+theorem init_parked_R (m : Mem) (k : Nat) :
+    MPool.R (MPool.init k, ([] : List Nat)).1 m (MPool.init k, ([] : List Nat)).2
+      (m.live - poolBlk (MPool.init k, [])) := by
+  have := MPool.init_R k m
+  exact R_self this
+
+theorem parkedBlk_init (cur : Nat) : parkedBlk cur (fun k => (MPool.init k, [])) = 0 := by
+  simp only [parkedBlk, poolBlk, MPool.init]
+  induction otherSizes cur with
+  | nil => rfl
+  | cons a l ih => simpa using ih
+
 theorem rel_init : Rel 0 {} {} :=
-  ⟨by intro i sz h; simp [sched] at h; exact h, rfl, rfl, rfl, MPool.init_R 4 _, rfl⟩
+  ⟨by intro i sz h; simp [sched] at h; exact h, rfl, rfl, rfl,
+   ⟨by rw [parkedBlk_init]; exact MPool.init_R 4 _, by decide, fun k => init_parked_R _ k⟩, rfl, rfl, fun _ => rfl⟩
 
 /-! ## elastic array: the monitor accepts the model's answers -/
 
@@ -984,7 +1029,7 @@ theorem ea_accept_core {n : Nat} {s : DsStep.S} {ms : Spec.DSMon.S} (h : Rel n s
   rw [hmon, eaJudge_accept ms _ _ emon _ why _
     (eaAns_out _ _ _ _ hno (by rw [ea_step_refused, rf_pos frame.1])) hadm]
   refine ⟨rfl, ⟨h.capped.ext hext, ⟨hInv', frame.2 h.capped hcap, rfl⟩, h.eq, h.sm.mono (Nat.le_succ _), ?_, h.inUse⟩⟩
-  refine R_transport hmp hext ?_
+  refine PR_transport hmp hext ?_
   simp only [eaBlk]
   omega
 
@@ -1202,7 +1247,7 @@ theorem ea_free_accept {n : Nat} {s : DsStep.S} {ms : Spec.DSMon.S} (h : Rel n s
   unfold StepGoal
   simp only [stepOp, onEa, hs, monStep, hms, Out.ans]
   refine ⟨by decide, ⟨h.capped.ext (ea_free_ext _ _), rfl, h.eq, h.sm.mono (Nat.le_succ _), ?_, h.inUse⟩⟩
-  refine R_transport hmp (ea_free_ext _ _) ?_
+  refine PR_transport hmp (ea_free_ext _ _) ?_
   simp only [eaBlk]
   rw [EArray.free_live]; omega
 
@@ -1249,7 +1294,7 @@ theorem ea_export_accept {n : Nat} {s : DsStep.S} {ms : Spec.DSMon.S} (h : Rel n
     simp only [e, hA, hhead, hsh]
     rw [if_pos ⟨rfl, by simp [EArray.ans, hrf], trivial⟩]
     refine ⟨rfl, ⟨h.capped.ext htf.1, ⟨hinv, hcap, hms⟩, h.eq, h.sm.mono (Nat.le_succ _), ?_, h.inUse⟩⟩
-    refine R_transport hmp htf.1 ?_
+    refine PR_transport hmp htf.1 ?_
     simp only [eaBlk]; omega
   · obtain ⟨hsz, hal, hbuf⟩ := hok rfl
     simp only [Out.ans]
@@ -1258,7 +1303,7 @@ theorem ea_export_accept {n : Nat} {s : DsStep.S} {ms : Spec.DSMon.S} (h : Rel n
     rw [if_pos ⟨hb, by rw [hlen]; simp [EArray.getsize, hsz]⟩]
     have hext := (htf.1.trans (ext_free m' false)).trans (ext_free (m'.free false) (a'.alloc == 0))
     refine ⟨rfl, ⟨h.capped.ext hext, rfl, h.eq, h.sm.mono (Nat.le_succ _), ?_, h.inUse⟩⟩
-    refine R_transport hmp hext ?_
+    refine PR_transport hmp hext ?_
     have f1 := (free_facts m' false).2.1
     have f2 := (free_facts (m'.free false) (a'.alloc == 0)).2.1
     simp only [eaBlk]
@@ -1270,14 +1315,14 @@ theorem ea_export_accept {n : Nat} {s : DsStep.S} {ms : Spec.DSMon.S} (h : Rel n
 def eaFreed (s : DsStep.S) : Mem := match s.ea with | some a => EArray.free a s.m | none => s.m
 
 theorem ea_release {n : Nat} {s : DsStep.S} {ms : Spec.DSMon.S} (h : Rel n s ms) :
-    Ext s.m (eaFreed s) ∧ MPool.R s.mp (eaFreed s) s.inUse (eqBlk s.eq + smBlk s.sm) := by
+    Ext s.m (eaFreed s) ∧ PR s.mp (eaFreed s) s.inUse s.mpSize s.parked (eqBlk s.eq + smBlk s.sm) := by
   have hmp := h.mp
   unfold eaFreed
   cases hs : s.ea with
   | none => rw [hs] at hmp; simp only [eaBlk, Int.zero_add] at hmp; exact ⟨Ext.refl _, hmp⟩
   | some a =>
     rw [hs] at hmp
-    refine ⟨ea_free_ext _ _, R_transport hmp (ea_free_ext _ _) ?_⟩
+    refine ⟨ea_free_ext _ _, PR_transport hmp (ea_free_ext _ _) ?_⟩
     simp only [eaBlk]; rw [EArray.free_live]; omega
 
 theorem stepOp_eaInit (s : DsStep.S) (k reclen seed : Nat) (r : RecLen) (hmk : mkRecLen reclen = some r) :
@@ -1314,7 +1359,7 @@ theorem ea_init_accept {n : Nat} {s : DsStep.S} {ms : Spec.DSMon.S} (h : Rel n s
       · right; rw [← SIZE_MAX_same]; exact h1
     split
     · refine ⟨rfl, ⟨h.capped.ext hext, rfl, h.eq, h.sm.mono (Nat.le_succ _), ?_, h.inUse⟩⟩
-      refine R_transport hmp0 hfr.1 ?_
+      refine PR_transport hmp0 hfr.1 ?_
       simp only [eaBlk]; omega
     · rename_i hcond; exact absurd this hcond
   | some a =>
@@ -1337,7 +1382,7 @@ theorem ea_init_accept {n : Nat} {s : DsStep.S} {ms : Spec.DSMon.S} (h : Rel n s
     simp only [monStep, e, hhead, hA, hsmall, if_false, habs, hsh]
     rw [if_pos ⟨rfl, trivial⟩]
     refine ⟨rfl, ⟨h.capped.ext hext, ⟨hinv'', by rw [hal'']; exact hcap, rfl⟩, h.eq, h.sm.mono (Nat.le_succ _), ?_, h.inUse⟩⟩
-    refine R_transport hmp0 hfr.1 ?_
+    refine PR_transport hmp0 hfr.1 ?_
     simp only [eaBlk, bufBlocks_congr hal'']; omega
 
 /-! ## elastic queue: the monitor accepts the model's answers -/
@@ -1431,7 +1476,7 @@ theorem eq_accept_core {n : Nat} {s : DsStep.S} {ms : Spec.DSMon.S} (h : Rel n s
     (eqAns_out _ _ _ _ _ hno (by rw [eq_step_refused, rf_pos frame.1])) hadm]
   refine ⟨rfl, ⟨h.capped.ext frame.1, h.ea, ⟨hinv', frame.2 h.capped hcap, by rw [hrl']; exact hrl, rfl, by rw [hrl']; exact heqr⟩,
     h.sm.mono (Nat.le_succ _), ?_, h.inUse⟩⟩
-  refine R_transport hmp frame.1 ?_
+  refine PR_transport hmp frame.1 ?_
   simp only [eqBlk]
   omega
 
@@ -1463,7 +1508,7 @@ theorem eq_free_accept {n : Nat} {s : DsStep.S} {ms : Spec.DSMon.S} (h : Rel n s
   unfold StepGoal
   simp only [stepOp, hs, monStep, hms, Out.ans]
   refine ⟨by decide, ⟨h.capped.ext (eq_free_ext _ _), h.ea, rfl, h.sm.mono (Nat.le_succ _), ?_, h.inUse⟩⟩
-  refine R_transport hmp (eq_free_ext _ _) ?_
+  refine PR_transport hmp (eq_free_ext _ _) ?_
   simp only [eqBlk]
   rw [EQueue.free_live]; omega
 
@@ -1509,14 +1554,14 @@ theorem eq_dump_accept {n : Nat} {s : DsStep.S} {ms : Spec.DSMon.S} (h : Rel n s
 def eqFreed (s : DsStep.S) : Mem := match s.eq with | some q => EQueue.free q s.m | none => s.m
 
 theorem eq_release {n : Nat} {s : DsStep.S} {ms : Spec.DSMon.S} (h : Rel n s ms) :
-    Ext s.m (eqFreed s) ∧ MPool.R s.mp (eqFreed s) s.inUse (eaBlk s.ea + smBlk s.sm) := by
+    Ext s.m (eqFreed s) ∧ PR s.mp (eqFreed s) s.inUse s.mpSize s.parked (eaBlk s.ea + smBlk s.sm) := by
   have hmp := h.mp
   unfold eqFreed
   cases hs : s.eq with
   | none => rw [hs] at hmp; simp only [eqBlk, Int.add_zero] at hmp; exact ⟨Ext.refl _, hmp⟩
   | some a =>
     rw [hs] at hmp
-    refine ⟨eq_free_ext _ _, R_transport hmp (eq_free_ext _ _) ?_⟩
+    refine ⟨eq_free_ext _ _, PR_transport hmp (eq_free_ext _ _) ?_⟩
     simp only [eqBlk]; rw [EQueue.free_live]; omega
 
 theorem stepOp_eqInit (s : DsStep.S) (reclen : Nat) (r : RecLen) (hmk : mkRecLen reclen = some r) :
@@ -1548,7 +1593,7 @@ theorem eq_init_accept {n : Nat} {s : DsStep.S} {ms : Spec.DSMon.S} (h : Rel n s
     have : (some (rf m0 m')).getD 0 > 0 := by simp only [Option.getD_some, rf]; omega
     rw [if_pos this]
     refine ⟨rfl, ⟨h.capped.ext hext, h.ea, rfl, h.sm.mono (Nat.le_succ _), ?_, h.inUse⟩⟩
-    refine R_transport hmp0 hfr.1 ?_
+    refine PR_transport hmp0 hfr.1 ?_
     simp only [eqBlk]; omega
   | some q =>
     obtain ⟨hinv, hrl', habs, hoff, hlen, hlive, hrf⟩ := hsp
@@ -1558,7 +1603,7 @@ theorem eq_init_accept {n : Nat} {s : DsStep.S} {ms : Spec.DSMon.S} (h : Rel n s
     simp only [monStep, if_true]
     refine ⟨trivial, ⟨h.capped.ext hext, h.ea, ⟨hinv, hcap, by rw [hrl']; exact hrl, by rw [habs], by rw [hrl']⟩,
       h.sm.mono (Nat.le_succ _), ?_, h.inUse⟩⟩
-    refine R_transport hmp0 hfr.1 ?_
+    refine PR_transport hmp0 hfr.1 ?_
     simp only [eqBlk]; omega
 
 theorem eq_family_accept {n : Nat} {s : DsStep.S} {ms : Spec.DSMon.S} (h : Rel n s ms) (op : Op) (hok : OpOk op)
@@ -1697,7 +1742,7 @@ theorem sm_accept_core {n : Nat} {s : DsStep.S} {ms : Spec.DSMon.S} (h : Rel n s
     (smOutOf e (SeqMap.step x e s.m).1 (SeqMap.step x e s.m).2.1 s.m (SeqMap.step x e s.m).2.2).ans
   rw [hmon, smJudge_out ms _ _ e _ _ _ _ why hno (by rw [sm_step_refused, rf_pos frame.1]) hz.1 hz.2 hadm]
   refine ⟨rfl, ⟨h.capped.ext frame.1, h.ea, h.eq, ⟨hinv', frame.2 h.capped hcap, by omega, rfl⟩, ?_, h.inUse⟩⟩
-  refine R_transport hmp frame.1 ?_
+  refine PR_transport hmp frame.1 ?_
   simp only [smBlk]
   omega
 
@@ -1718,21 +1763,21 @@ theorem sm_free_accept {n : Nat} {s : DsStep.S} {ms : Spec.DSMon.S} (h : Rel n s
   unfold StepGoal
   simp only [stepOp, hs, monStep, hms, Out.ans]
   refine ⟨by decide, ⟨h.capped.ext (sm_free_ext _ _), h.ea, h.eq, rfl, ?_, h.inUse⟩⟩
-  refine R_transport hmp (sm_free_ext _ _) ?_
+  refine PR_transport hmp (sm_free_ext _ _) ?_
   simp only [smBlk]
   rw [SeqMap.free_live]; omega
 
 def smFreed (s : DsStep.S) : Mem := match s.sm with | some x => SeqMap.free x s.m | none => s.m
 
 theorem sm_release {n : Nat} {s : DsStep.S} {ms : Spec.DSMon.S} (h : Rel n s ms) :
-    Ext s.m (smFreed s) ∧ MPool.R s.mp (smFreed s) s.inUse (eaBlk s.ea + eqBlk s.eq) := by
+    Ext s.m (smFreed s) ∧ PR s.mp (smFreed s) s.inUse s.mpSize s.parked (eaBlk s.ea + eqBlk s.eq) := by
   have hmp := h.mp
   unfold smFreed
   cases hs : s.sm with
   | none => rw [hs] at hmp; simp only [smBlk, Int.add_zero] at hmp; exact ⟨Ext.refl _, hmp⟩
   | some a =>
     rw [hs] at hmp
-    refine ⟨sm_free_ext _ _, R_transport hmp (sm_free_ext _ _) ?_⟩
+    refine ⟨sm_free_ext _ _, PR_transport hmp (sm_free_ext _ _) ?_⟩
     simp only [smBlk]; rw [SeqMap.free_live]; omega
 
 theorem stepOp_smInit (s : DsStep.S) :
@@ -1762,7 +1807,7 @@ theorem sm_init_accept {n : Nat} {s : DsStep.S} {ms : Spec.DSMon.S} (h : Rel n s
     have : (some (rf m0 m')).getD 0 > 0 := by simp only [Option.getD_some, rf]; omega
     rw [if_pos this]
     refine ⟨rfl, ⟨h.capped.ext hext, h.ea, h.eq, rfl, ?_, h.inUse⟩⟩
-    refine R_transport hmp0 hfr.1 ?_
+    refine PR_transport hmp0 hfr.1 ?_
     simp only [smBlk]; omega
   | some x =>
     obtain ⟨hinv, habs, hoff, hlen, _, _, hlive, hrf⟩ := hsp
@@ -1771,7 +1816,7 @@ theorem sm_init_accept {n : Nat} {s : DsStep.S} {ms : Spec.DSMon.S} (h : Rel n s
     simp only [Out.ans]
     simp only [monStep]
     refine ⟨trivial, ⟨h.capped.ext hext, h.ea, h.eq, ⟨hinv, hcap, by rw [hoff, hlen]; simp; omega, by rw [habs]⟩, ?_, h.inUse⟩⟩
-    refine R_transport hmp0 hfr.1 ?_
+    refine PR_transport hmp0 hfr.1 ?_
     simp only [smBlk]; omega
 
 theorem sm_family_accept {n : Nat} {s : DsStep.S} {ms : Spec.DSMon.S} (h : Rel n s ms)
@@ -1810,12 +1855,12 @@ theorem mp_step_refused (p : MPool.MP) (e : MpOp) (m : Mem) :
   cases e <;> rfl
 
 theorem mp_malloc_accept {n : Nat} {s : DsStep.S} {ms : Spec.DSMon.S} (h : Rel n s ms) : StepGoal n s ms .mpMalloc := by
-  obtain ⟨u', hadm, hR⟩ := MPool.step_ok objSize s.mp .malloc s.m s.inUse _ h.mp trivial
+  obtain ⟨u', hadm, hR⟩ := MPool.step_ok objSize s.mp .malloc s.m s.inUse _ h.mp.here trivial
   have hu := mpAdmit_inUse hadm
   have hext := mp_step_ext objSize s.mp .malloc s.m
   have hrfd := mp_step_refused s.mp .malloc s.m
   rw [← rf_pos hext] at hrfd
-  have hin := h.inUse
+  have hin := h.inUse.1
   unfold StepGoal
   rw [mp_stepOp s .mpMalloc .malloc rfl]
   simp only
@@ -1828,11 +1873,11 @@ theorem mp_malloc_accept {n : Nat} {s : DsStep.S} {ms : Spec.DSMon.S} (h : Rel n
   | none =>
     simp only [mpObjOf, Out.ans, monStep, hin]
     simp only [Bool.false_eq_true, if_false, Option.isNone_none, Bool.not_true, and_false, hadm]
-    exact ⟨trivial, ⟨h.capped.ext hext, h.ea, h.eq, h.sm.mono (Nat.le_succ _), hR, rfl⟩⟩
+    exact ⟨trivial, ⟨h.capped.ext hext, h.ea, h.eq, h.sm.mono (Nat.le_succ _), PR_step h.mp hext hR, rfl, h.inUse.2⟩⟩
   | some x =>
     simp only [mpObjOf, Out.ans, monStep, hin]
     simp only [Bool.false_eq_true, if_false, Option.isNone_some, false_and, hadm]
-    exact ⟨trivial, ⟨h.capped.ext hext, h.ea, h.eq, h.sm.mono (Nat.le_succ _), hR, rfl⟩⟩
+    exact ⟨trivial, ⟨h.capped.ext hext, h.ea, h.eq, h.sm.mono (Nat.le_succ _), PR_step h.mp hext hR, rfl, h.inUse.2⟩⟩
 
 /-- `mp_free x` / `mp_freenth` once the object is known -/
 theorem mp_free_core {n : Nat} {s : DsStep.S} {ms : Spec.DSMon.S} (h : Rel n s ms) {op : Op} {x : Nat}
@@ -1841,10 +1886,10 @@ theorem mp_free_core {n : Nat} {s : DsStep.S} {ms : Spec.DSMon.S} (h : Rel n s m
       match mpAdmit ms.inUse (.free x) { obj := none, refused := false } with
       | some u => ({ ms with inUse := u }, none)
       | none => (ms, some "free of an object not in use")) : StepGoal n s ms op := by
-  obtain ⟨u', hadm, hR⟩ := MPool.step_ok objSize s.mp (.free x) s.m s.inUse _ h.mp hx
+  obtain ⟨u', hadm, hR⟩ := MPool.step_ok objSize s.mp (.free x) s.m s.inUse _ h.mp.here hx
   have hu := mpAdmit_inUse hadm
   have hext := mp_step_ext objSize s.mp (.free x) s.m
-  have hin := h.inUse
+  have hin := h.inUse.1
   unfold StepGoal
   rw [mp_stepOp s op (.free x) he]
   simp only
@@ -1857,11 +1902,11 @@ theorem mp_free_core {n : Nat} {s : DsStep.S} {ms : Spec.DSMon.S} (h : Rel n s m
     simp [mpAdmit, hx]
   have hu' : u' = s.inUse.erase x := by rw [hu]; rfl
   rw [this]
-  exact ⟨rfl, ⟨h.capped.ext hext, h.ea, h.eq, h.sm.mono (Nat.le_succ _), hR, by rw [hu']⟩⟩
+  exact ⟨rfl, ⟨h.capped.ext hext, h.ea, h.eq, h.sm.mono (Nat.le_succ _), PR_step h.mp hext hR, by rw [hu'], h.inUse.2⟩⟩
 
 theorem mp_free_accept {n : Nat} {s : DsStep.S} {ms : Spec.DSMon.S} (h : Rel n s ms) (x : Nat) :
     StepGoal n s ms (.mpFree x) := by
-  have hin := h.inUse
+  have hin := h.inUse.1
   by_cases hx : x ∈ s.inUse
   · have hc : s.inUse.contains x = true := by simpa using hx
     refine mp_free_core h (x := x) (by simp [mpOpOf, hx]) hx ?_
@@ -1875,7 +1920,7 @@ theorem mp_free_accept {n : Nat} {s : DsStep.S} {ms : Spec.DSMon.S} (h : Rel n s
 
 theorem mp_freenth_accept {n : Nat} {s : DsStep.S} {ms : Spec.DSMon.S} (h : Rel n s ms) (j : Nat) :
     StepGoal n s ms (.mpFreenth j) := by
-  have hin := h.inUse
+  have hin := h.inUse.1
   cases hsel : (s.inUse.mergeSort (· ≤ ·))[j % (s.inUse.mergeSort (· ≤ ·)).length]? with
   | none =>
     have hemp : s.inUse = [] := by
@@ -1900,18 +1945,46 @@ theorem mp_freenth_accept {n : Nat} {s : DsStep.S} {ms : Spec.DSMon.S} (h : Rel 
     simp only [mpObjOf, Out.ans, monStep, Ans.isJust]
     simp [hin, mpAdmit, hx]
 
-/-- `mp_exit` (and the pool part of `end`): the pool frees its cache and its stack, the harness the objects still in
-use; a fresh pool; exactly `base` blocks stay allocated -/
-theorem poolExit_spec {s : DsStep.S} {base : Int} (hR : MPool.R s.mp s.m s.inUse base) :
-    Ext s.m (poolExit s).m ∧ (poolExit s).m.live = base ∧ MPool.R (poolExit s).mp (poolExit s).m (poolExit s).inUse base ∧
+theorem exitOne_spec {pu : MPool.MP × List Nat} {m : Mem} {b : Int} (hR : MPool.R pu.1 m pu.2 b) :
+    Ext m (exitOne m pu) ∧ (exitOne m pu).live = b := by
+  constructor
+  · simp only [exitOne]; exact (mp_atexit_ext _ _).trans (foldl_free_ext _ _)
+  · simp only [exitOne]
+    rw [(MPool.foldl_free_live _ _).1, (MPool.atexit_spec pu.1 m pu.2 b hR).2.2]; omega
+
+theorem exitParked_spec (pk : Nat → MPool.MP × List Nat) : ∀ (l : List Nat) (m : Mem),
+    (∀ k, MPool.R (pk k).1 m (pk k).2 (m.live - poolBlk (pk k))) →
+    Ext m (l.foldl (fun m k => exitOne m (pk k)) m) ∧
+    (l.foldl (fun m k => exitOne m (pk k)) m).live = m.live - (l.map fun k => poolBlk (pk k)).sum
+  | [], m, _ => ⟨Ext.refl _, by simp⟩
+  | a :: l, m, hP => by
+    obtain ⟨e1, l1⟩ := exitOne_spec (hP a)
+    have hP' : ∀ k, MPool.R (pk k).1 (exitOne m (pk a)) (pk k).2 ((exitOne m (pk a)).live - poolBlk (pk k)) :=
+      fun k => R_transport (hP k) e1 (by omega)
+    obtain ⟨e2, l2⟩ := exitParked_spec pk l _ hP'
+    simp only [List.foldl_cons, List.map_cons, List.sum_cons]
+    exact ⟨e1.trans e2, by rw [l2, l1]; omega⟩
+
+/-- `mp_exit` (and the pool part of `end`): **every** pool — the one in use and the parked ones — frees its cache and
+its stack, the harness the objects still in use; fresh pools; exactly `base` blocks stay allocated -/
+theorem poolExit_spec {s : DsStep.S} {base : Int} (hR : PR s.mp s.m s.inUse s.mpSize s.parked base) :
+    Ext s.m (poolExit s).m ∧ (poolExit s).m.live = base ∧
+    PR (poolExit s).mp (poolExit s).m (poolExit s).inUse (poolExit s).mpSize (poolExit s).parked base ∧
     (poolExit s).ea = s.ea ∧ (poolExit s).eq = s.eq ∧ (poolExit s).sm = s.sm := by
+  obtain ⟨e1, l1⟩ := exitOne_spec (pu := (s.mp, s.inUse)) hR.here
+  have hP : ∀ k, MPool.R (s.parked k).1 (exitOne s.m (s.mp, s.inUse)) (s.parked k).2
+      ((exitOne s.m (s.mp, s.inUse)).live - poolBlk (s.parked k)) :=
+    fun k => R_transport (hR.parked k) e1 (by omega)
+  obtain ⟨e2, l2⟩ := exitParked_spec s.parked (otherSizes s.mpSize) _ hP
   have hlive : (poolExit s).m.live = base := by
     simp only [poolExit]
-    rw [(MPool.foldl_free_live _ _).1, (MPool.atexit_spec s.mp s.m s.inUse base hR).2.2]; omega
-  refine ⟨?_, hlive, ?_, rfl, rfl, rfl⟩
-  · simp only [poolExit]; exact (mp_atexit_ext _ _).trans (foldl_free_ext _ _)
+    rw [l2, l1]; simp only [parkedBlk]; omega
+  refine ⟨?_, hlive, ⟨?_, hR.size, fun k => init_parked_R _ k⟩, rfl, rfl, rfl⟩
+  · simp only [poolExit]; exact e1.trans e2
   · have := MPool.init_R s.mpSize (poolExit s).m
     rw [hlive] at this
+    show MPool.R (MPool.init s.mpSize) (poolExit s).m [] (base + parkedBlk s.mpSize fun k => (MPool.init k, []))
+    rw [parkedBlk_init, Int.add_zero]
     exact this
 
 theorem mp_exit_accept {n : Nat} {s : DsStep.S} {ms : Spec.DSMon.S} (h : Rel n s ms) : StepGoal n s ms .mpExit := by
@@ -1920,9 +1993,9 @@ theorem mp_exit_accept {n : Nat} {s : DsStep.S} {ms : Spec.DSMon.S} (h : Rel n s
   simp only [stepOp, Out.ans]
   simp only [monStep]
   refine ⟨rfl, ⟨h.capped.ext hext, by rw [h1]; exact h.ea, by rw [h2]; exact h.eq,
-    by rw [h3]; exact h.sm.mono (Nat.le_succ _), by rw [h1, h2, h3]; exact hR, rfl⟩⟩
+    by rw [h3]; exact h.sm.mono (Nat.le_succ _), by rw [h1, h2, h3]; exact hR, rfl, h.inUse.2.1, fun _ => rfl⟩⟩
 
-/-- `mp_init size` (one of the harness' pool sizes): the pool in use ends like `mp_exit`, a fresh pool of cache size
+/-- `mp_init size` (one of the harness' pool sizes): the pools end like at `mp_exit`, a fresh pool of cache size
 `size` is taken -/
 theorem mp_init_accept {n : Nat} {s : DsStep.S} {ms : Spec.DSMon.S} (h : Rel n s ms) (size : Nat)
     (hok : poolSizes.contains size = true) : StepGoal n s ms (.mpInit size) := by
@@ -1933,7 +2006,54 @@ theorem mp_init_accept {n : Nat} {s : DsStep.S} {ms : Spec.DSMon.S} (h : Rel n s
   simp only [stepOp, hok, Bool.not_true, Bool.false_eq_true, if_false, Out.ans]
   simp only [monStep]
   refine ⟨rfl, ⟨h.capped.ext hext, by rw [h1]; exact h.ea, by rw [h2]; exact h.eq,
-    by rw [h3]; exact h.sm.mono (Nat.le_succ _), by rw [h1, h2, h3]; exact hR, rfl⟩⟩
+    by rw [h3]; exact h.sm.mono (Nat.le_succ _), ⟨?_, hok, fun k => init_parked_R _ k⟩, rfl, rfl, fun _ => rfl⟩⟩
+  show MPool.R (MPool.init size) (poolExit s).m []
+    (eaBlk (poolExit s).ea + eqBlk (poolExit s).eq + smBlk (poolExit s).sm + parkedBlk size fun k => (MPool.init k, []))
+  rw [parkedBlk_init, Int.add_zero, h1, h2, h3]
+  exact hR
+
+theorem mem_poolSizes {k : Nat} (h : poolSizes.contains k = true) : k = 1 ∨ k = 2 ∨ k = 3 ∨ k = 4 := by
+  simpa [poolSizes] using h
+
+/-- the accounting of a switch: the pool left joins the parked ones, the pool taken leaves them -/
+theorem parkedBlk_swap {cur k : Nat} (hc : poolSizes.contains cur = true) (hk : poolSizes.contains k = true)
+    (pk : Nat → MPool.MP × List Nat) (c : MPool.MP × List Nat) :
+    parkedBlk k (fun j => if j = cur then c else pk j) + poolBlk ((fun j => if j = cur then c else pk j) k) =
+      parkedBlk cur pk + poolBlk c := by
+  rcases mem_poolSizes hc with rfl | rfl | rfl | rfl <;> rcases mem_poolSizes hk with rfl | rfl | rfl | rfl <;>
+    simp [parkedBlk, otherSizes, poolSizes] <;> omega
+
+/-- `mp_use size`: nothing is allocated or released; the pool taken satisfies the single-pool relation with the pool
+left now among "the rest" -/
+theorem mp_use_accept {n : Nat} {s : DsStep.S} {ms : Spec.DSMon.S} (h : Rel n s ms) (size : Nat)
+    (hok : poolSizes.contains size = true) : StepGoal n s ms (.mpUse size) := by
+  have hsw := parkedBlk_swap h.mp.size hok s.parked (s.mp, s.inUse)
+  have hl := h.mp.here.live
+  have hpk : ∀ j, MPool.R ((fun j => if j = s.mpSize then (s.mp, s.inUse) else s.parked j) j).1 s.m
+      ((fun j => if j = s.mpSize then (s.mp, s.inUse) else s.parked j) j).2
+      (s.m.live - poolBlk ((fun j => if j = s.mpSize then (s.mp, s.inUse) else s.parked j) j)) := by
+    intro j
+    by_cases hj : j = s.mpSize
+    · simp only [hj, if_true]; exact R_self h.mp.here
+    · simp only [hj, if_false]; exact h.mp.parked j
+  obtain ⟨i1, i2, i3⟩ := h.inUse
+  unfold StepGoal
+  simp only [stepOp, hok, Bool.not_true, Bool.false_eq_true, if_false, Out.ans]
+  simp only [monStep]
+  refine ⟨rfl, ⟨h.capped, h.ea, h.eq, h.sm.mono (Nat.le_succ _), ⟨?_, hok, hpk⟩, ?_, rfl, ?_⟩⟩
+  · refine R_transport (hpk size) (Ext.refl _) ?_
+    simp only [poolBlk] at hsw hl ⊢
+    omega
+  · show (if size = ms.mpSize then ms.inUse else ms.parkedU size) =
+      (if size = s.mpSize then (s.mp, s.inUse) else s.parked size).2
+    rw [i2]; split
+    · exact i1
+    · exact i3 size
+  · intro j
+    show (if j = ms.mpSize then ms.inUse else ms.parkedU j) = (if j = s.mpSize then (s.mp, s.inUse) else s.parked j).2
+    rw [i2]; split
+    · exact i1
+    · exact i3 j
 
 def eaF (o : Option EArray.EA) (m : Mem) : Mem := match o with | some a => EArray.free a m | none => m
 def eqF (o : Option EQueue.EQ) (m : Mem) : Mem := match o with | some q => EQueue.free q m | none => m
@@ -1956,14 +2076,14 @@ theorem freeAll_eq (s : DsStep.S) :
     freeAll s = { s with m := smF s.sm (eqF s.eq (eaF s.ea s.m)), ea := none, eq := none, sm := none } := rfl
 
 theorem freeAll_spec {n : Nat} {s : DsStep.S} {ms : Spec.DSMon.S} (h : Rel n s ms) :
-    Ext s.m (freeAll s).m ∧ MPool.R (freeAll s).mp (freeAll s).m (freeAll s).inUse 0 ∧
+    Ext s.m (freeAll s).m ∧ PR (freeAll s).mp (freeAll s).m (freeAll s).inUse (freeAll s).mpSize (freeAll s).parked 0 ∧
     (freeAll s).ea = none ∧ (freeAll s).eq = none ∧ (freeAll s).sm = none := by
   rw [freeAll_eq]
   have h1 := eaF_spec s.ea s.m
   have h2 := eqF_spec s.eq (eaF s.ea s.m)
   have h3 := smF_spec s.sm (eqF s.eq (eaF s.ea s.m))
   have hext := (h1.1.trans h2.1).trans h3.1
-  refine ⟨hext, R_transport h.mp hext ?_, rfl, rfl, rfl⟩
+  refine ⟨hext, PR_transport h.mp hext ?_, rfl, rfl, rfl⟩
   simp only
   rw [h3.2, h2.2, h1.2]; omega
 
@@ -1973,7 +2093,7 @@ theorem end_accept {n : Nat} {s : DsStep.S} {ms : Spec.DSMon.S} (h : Rel n s ms)
   unfold StepGoal
   simp only [stepOp, Out.ans, hlive]
   simp only [monStep]
-  refine ⟨rfl, ⟨h.capped.ext (hext1.trans hext2), by rw [f1, e1]; rfl, by rw [f2, e2]; rfl, by rw [f3, e3]; rfl, ?_, rfl⟩⟩
+  refine ⟨rfl, ⟨h.capped.ext (hext1.trans hext2), by rw [f1, e1]; rfl, by rw [f2, e2]; rfl, by rw [f3, e3]; rfl, ?_, rfl, h.inUse.2.1, fun _ => rfl⟩⟩
   rw [f1, f2, f3, e1, e2, e3]
   exact hR2
 
@@ -1988,7 +2108,9 @@ theorem fail_accept {n : Nat} {s : DsStep.S} {ms : Spec.DSMon.S} (h : Rel n s ms
   cases op <;> simp only at hop <;> unfold StepGoal <;> simp only [stepOp, Out.ans, headOfWord] <;>
     simp only [monStep, okOr] <;>
     exact ⟨rfl, ⟨sched_capped _ _ _ _, h.ea, h.eq, h.sm.mono (Nat.le_succ _),
-      ⟨hmp.nodup, hmp.unodup, hmp.disj, hmp.sfresh, hmp.ufresh, hmp.slen, hmp.live⟩, h.inUse⟩⟩
+      ⟨⟨hmp.here.nodup, hmp.here.unodup, hmp.here.disj, hmp.here.sfresh, hmp.here.ufresh, hmp.here.slen, hmp.here.live⟩, hmp.size,
+       fun k => ⟨(hmp.parked k).nodup, (hmp.parked k).unodup, (hmp.parked k).disj, (hmp.parked k).sfresh,
+         (hmp.parked k).ufresh, (hmp.parked k).slen, (hmp.parked k).live⟩⟩, h.inUse⟩⟩
 
 /-- **one protocol step**: from related states, for an operation the generators produce, after fewer than 2^63
 operations: the monitor accepts the model's answer and the states are related again -/
@@ -2004,6 +2126,7 @@ theorem mon_step {n : Nat} {s : DsStep.S} {ms : Spec.DSMon.S} (h : Rel n s ms) (
   case mpFreenth j => exact mp_freenth_accept h j
   case mpExit => exact mp_exit_accept h
   case mpInit size => exact mp_init_accept h size hok
+  case mpUse size => exact mp_use_accept h size hok
   case eqInit r => exact eq_family_accept h _ hok trivial
   case eqAdd seed => exact eq_family_accept h _ hok trivial
   case eqDel => exact eq_family_accept h _ hok trivial
